@@ -350,7 +350,34 @@ fn run_history<T: Elem>(ctx: &mut Ctx, init: usize, ops: &[Op], tyname: &str) {
     ctx.rec.count("histories", 1);
 }
 
+/// small workload for the undefined-behaviour interpreter (Miri): all histories of length 2 over a
+/// reduced alphabet plus two random histories
+fn run_miri(ctx: &mut Ctx) {
+    let ops = all_ops(2);
+    for a in ops.iter() {
+        for b in ops.iter().step_by(3) {
+            run_history::<i32>(ctx, 2, &[a.clone(), b.clone()], "i32");
+        }
+    }
+    for j in 0..2u64 {
+        let mut r = Rng::derive(ctx.seed, &[16, 1, j]);
+        let big = all_ops(6);
+        let h: Vec<Op> = (0..80).map(|_| if r.chance(1, 3) { Op::Push } else { r.pick(&big).clone() }).collect();
+        if j == 0 {
+            run_history::<i32>(ctx, 0, &h, "i32");
+        } else {
+            run_history::<Item>(ctx, 0, &h, "Item");
+        }
+    }
+    ctx.rec.sample("miri", "all histories of length 2 over 35 op instances from a 2-element stack + 2 random histories of 80 ops");
+}
+
 pub fn run(ctx: &mut Ctx) {
+    if ctx.mode == "miri" {
+        run_miri(ctx);
+        ctx.rec.checkpoint();
+        return;
+    }
     let mut case: u64 = 0;
     // exhaustive: all histories of length <= K from the empty stack and from a 3-element stack
     let k = ctx.n(3, 4);
